@@ -15,5 +15,13 @@ func checkC04(tier string, seed int64) int {
 	})
 	agg.Into(c, "lemmas_")
 	c.Cov("lemma_harnesses", len(names))
+	// syntactic positions (shape E): the same operators through the compiler paths that pick the instruction
+	eagg, st := NewAgg(), &eqStats{}
+	pos := c04PositionProgs()
+	pos = append(pos, typedOpProgs()...)
+	c.runEquiv(pos, "z3", eagg, st)
+	eagg.Into(c, "positions_")
+	c.Cov("positions_paths_compared", st.compared)
+	c.Cov("positions_rule", "for each of int, byte, int8, uint32, float64 and boundary constants of the type: var x T = c, x := T(c), x op c, c op x, x op= c (all operators of the type), ++/--, constant adoption by parameter/result/field/element/map value, conversions between all 25 type pairs (float→int on small operands), comparisons, unary minus/complement, shifts by a variable count; operands symbolic, reference = Go/386")
 	return c.Finish(false)
 }
